@@ -201,7 +201,7 @@ def forbidden_tokens(prop: str):
     return bad
 
 
-def audit(prop: str):
+def audit(prop: str, tier: str = "quick"):
     """Build, then `#print axioms` every property theorem.
 
     Returns dict(obligations=[names], discharged=[names], failed={name: reason}, log=str, cmd=str)."""
@@ -233,6 +233,13 @@ def audit(prop: str):
         axs = [a.strip() for a in (m.group(2) or "").replace("\n", " ").split(",") if a.strip()]
         found[m.group(1).split(".")[-1]] = axs
         found[m.group(1)] = axs
+    if tier == "thorough":
+        # independent re-check of the compiled module by Lean's external checker
+        rc2, out2 = sh(["lake", "env", "leanchecker", "Dyce.Props.%s" % prop], cwd=LEAN, timeout=3000)
+        res["leanchecker"] = "ok" if rc2 == 0 else "FAILED: " + out2[-500:]
+        res["cmd"] += " && lake env leanchecker Dyce.Props.%s" % prop
+        if rc2 != 0:
+            bad = bad + ["leanchecker rejected Dyce.Props.%s" % prop]
     for n in names:
         short = n.split(".")[-1]
         if n in found or short in found:
@@ -316,3 +323,40 @@ def ilist(xs):
 
 def now():
     return time.time()
+
+
+# ---------------------------------------------------------------------------------------------
+# source fingerprints (escalation only, never an alarm)
+# ---------------------------------------------------------------------------------------------
+
+
+def anchored_files(prop):
+    for l in open(os.path.join(VERIF, "properties.jsonl")):
+        p = json.loads(l)
+        if p["id"] == prop:
+            return p["anchors"]["files"]
+    return []
+
+
+def fingerprint(path):
+    import ast
+    import hashlib
+
+    try:
+        tree = ast.parse(open(path).read())
+    except Exception:
+        return "unparsable"
+    return hashlib.sha256(ast.dump(tree, include_attributes=False).encode()).hexdigest()[:16]
+
+
+def fingerprints_changed(prop):
+    """files anchoring the property whose AST differs from the one recorded for the verified tree"""
+    rec_path = os.path.join(VERIF, "harness", "fingerprints.json")
+    if not os.path.exists(rec_path):
+        return []
+    rec = json.load(open(rec_path))
+    changed = []
+    for f in anchored_files(prop):
+        if rec.get(f) != fingerprint(os.path.join(REPO, f)):
+            changed.append(f)
+    return changed
